@@ -53,7 +53,7 @@ def gen_corpus(layer, shards=1, module="gen/Gen_Terms", deps=("gen/Gen_Terms.tla
         r = tlc.run(module, cfg=cfg, env={"OUT_FILE": part}, workers=1, heap="2g", timeout=1800)
         os.remove(cfg)
         if r.rc != 0 or r.error:
-            raise tlc.TLCError("generator %s/%s failed:\n%s" % (module, layer, r.out[-3000:]))
+            raise tlc.TLCError("generator %s/%s failed:\n%s" % (module, layer, r.out[-1200:]))
         return part, r
 
     with ThreadPoolExecutor(max_workers=min(shards, tlc.NCPU)) as ex:
